@@ -273,12 +273,18 @@ class _FailingSink(io.BytesIO):
         return io.BytesIO.write(self, b)
 
 
+class CallbackAbort(BaseException):
+    """A progress callback failing with something that is not an Exception subclass."""
+
+
 class _Raiser(object):
     def __init__(self, log, fail):
         self.log, self.fail = log, fail
 
     def __call__(self, path, n, total):
         self.log.append((path, n, total))
+        if self.fail == 'base':
+            raise CallbackAbort('callback failure (BaseException)')
         if self.fail:
             raise RuntimeError('callback failure')
 
@@ -286,6 +292,19 @@ class _Raiser(object):
 def run_op(s, op, a, tmp, i, rr):
     api = op['api']
     tkw = {k: op[k] for k in ('transport_timeout_s', 'read_timeout_s', 'timeout_s') if k in op}
+    if api == 'reconnect':
+        if 'maxdata' in op:
+            s.dev.auth.maxdata = op['maxdata']
+            s.dev.auth.final_maxdata = op['maxdata']
+        if op.get('close_first', True):
+            s.call('close')
+        return s.call('connect')
+    if 'budget' in op:
+        s.dev.budget = op['budget']
+        try:
+            return run_op(s, {k: v for k, v in op.items() if k != 'budget'}, a, tmp, i, rr)
+        finally:
+            s.dev.budget = None
     if op.get('late'):
         s.dev.hold_next_open = True     # the device withholds everything of this stream until the next OPEN arrives
     if api in ('shell', 'exec_out'):
@@ -301,7 +320,7 @@ def run_op(s, op, a, tmp, i, rr):
     cb = op.get('cb')
     log = []
     rr.extra.setdefault('cb', {})[i] = log
-    cbf = _Raiser(log, cb == 'raise') if cb else None
+    cbf = _Raiser(log, 'base' if cb == 'raise_base' else (cb == 'raise')) if cb else None
     if api == 'pull':
         if isinstance(op.get('dest'), list):      # ['raise', k]: a sink whose k-th write fails (local I/O error mid-transfer)
             dest = _FailingSink(op['dest'][1])
@@ -422,7 +441,7 @@ def project_events(rr, spec, syms=False):
     outcomes = list(rr.outcomes)
     base = 1 if spec.get('connect', True) else 0
     streams = {}
-    for st in rr.dev.all_streams if rr.dev else []:
+    for st in rr.dev.every_stream if rr.dev else []:
         streams.setdefault(st.lid, []).append(st)
     seen_lid = {}
     for e in rr.events:
@@ -538,6 +557,13 @@ def run_corpus(specs, modes=('sync', 'async'), syms=False):
 
 
 # ------------------------------------------------------------------ FileSync traces for TraceSync (C07-C10)
+def limbs_strict(v):
+    """A value the API returned as a 32-bit field: out-of-range values (negative, >= 2^32, not an int) are named [99999, 99999]."""
+    if not isinstance(v, int) or isinstance(v, bool) or v < 0 or v >= 2 ** 32:
+        return [99999, 99999]
+    return wire.limbs(v)
+
+
 def sync_traces(rr, spec, inert=None, only=None):
     """One trace per FileSync op of the session (events call / prx / ptx / cbk / ret|exc)."""
     out = []
@@ -556,7 +582,7 @@ def sync_traces(rr, spec, inert=None, only=None):
             continue
         o = rr.outcomes[base + i]
         a = rr.args[i]
-        streams = [st for st in rr.dev.all_streams if getattr(st, 'op', None) == i and st.dest.rstrip(b'\0') == b'sync:']
+        streams = [st for st in rr.dev.every_stream if getattr(st, 'op', None) == i and st.dest.rstrip(b'\0') == b'sync:']
         size = len(a['data']) if api == 'push' else (op.get('size') or 0) if api == 'pull' else 0
         files = a.get('files') if api == 'push' else None
         tr = [dict(ev='call', api=api, size=size, cb=bool(op.get('cb')), nfiles=len(files) if files is not None else 1)]
@@ -607,16 +633,16 @@ def sync_traces(rr, spec, inert=None, only=None):
                 want = rr.dev.fs.files.get(a['path'], {}).get('data', b'')
                 f.update(wrote=len(got) if got is not None else -1, match=(got == want))
             elif api == 'list':
-                f.update(entries=[[bytes(x[0]).hex(), wire.limbs(x[1]), wire.limbs(x[2]), wire.limbs(x[3])] for x in o.value],
+                f.update(entries=[[bytes(x[0]).hex(), limbs_strict(x[1]), limbs_strict(x[2]), limbs_strict(x[3])] for x in o.value],
                          expected=[[bytes.fromhex(n).hex() if isinstance(n, str) else bytes(n).hex(), wire.limbs(m), wire.limbs(sz), wire.limbs(t)] for (n, m, sz, t) in op.get('entries', [])])
             elif api == 'stat':
-                f.update(entries=[wire.limbs(x) for x in o.value], expected=[wire.limbs(x) for x in op.get('st', [0, 0, 0])])
+                f.update(entries=[limbs_strict(x) for x in o.value], expected=[wire.limbs(x) for x in op.get('st', [0, 0, 0])])
             tr.append(f)
         else:
             reason = plan.get('reason', '')
             rb = reason.encode('latin1')
             forms = [reason, rb.decode('utf8', 'backslashreplace'), repr(rb)[2:-1], rb.decode('utf8', 'replace')]
             tr.append(dict(ev='exc', api=api, cls=o.exc_name, reasonIn=any(f in str(o.exc) for f in forms) if reason else True,
-                           healthy=not plan and not spec.get('faulty') and not isinstance(op.get('dest'), list), inert=ok_inert, dir=files is not None))
+                           healthy=not plan and not spec.get('faulty') and not isinstance(op.get('dest'), list) and 'budget' not in op, inert=ok_inert, dir=files is not None))
         out.append((i, tr))
     return out
